@@ -3,6 +3,7 @@ CONSTANTS
   Names = {"", "uni", "LONG"}
   BaseLens = {0, 3}
   Align = {}
+  EndAlign = {}
   MaxOps = 5
   MaxFiles = 3
   Srcs = {"exact"}
